@@ -44,6 +44,10 @@ pub type SecurityContextId = i16;
 pub const BIB_HMAC_SHA2_ID: SecurityContextId = 1; // BIB-HMAC-SHA2
 pub const BCB_AES_GCM_ID: SecurityContextId = 2; // BCB-AES-GCM
 
+// Result Id of the BIB-HMAC-SHA2 security context (its only result: the expected HMAC)
+// https://www.rfc-editor.org/rfc/rfc9173.html#name-results
+pub const BIB_HMAC_SHA2_RESULT_ID: u64 = 1;
+
 // Security Context Flags
 //
 pub type SecurityContextFlag = u8;
@@ -196,7 +200,11 @@ impl IntegrityProtectedPlaintext {
         self.security_target_contents = serde_cbor::to_vec(&payload_block.data()).unwrap();
 
         // create canonical form of other data
-        if !matches!(payload_block.data(), CanonicalData::Data(_)) {
+        // (Data and Unknown already serialize as a CBOR byte string of the block-type-specific data)
+        if !matches!(
+            payload_block.data(),
+            CanonicalData::Data(_) | CanonicalData::Unknown(_)
+        ) {
             let temp_bytes = serde_bytes::Bytes::new(self.security_target_contents.as_slice());
             self.security_target_contents = serde_cbor::to_vec(&temp_bytes).unwrap();
         }
@@ -552,7 +560,8 @@ impl IntegrityBlock {
                 // | Id |Value|    | Id |Value|     | Id |Value|    | Id | Value|
                 // +----+-----+    +----+-----+     +----+-----+    +----+------+
 
-                self.security_results.push(vec![(ippt.0, result_value)]);
+                self.security_results
+                    .push(vec![(BIB_HMAC_SHA2_RESULT_ID, result_value)]);
             } else {
                 eprint!("Security Target and Ippt mismatch. Make sure there is an ippt for each target.")
             }
